@@ -8,7 +8,8 @@ from .values import (NONE, Num, Str, SStr, Cat, Obj, TupleV, Star, Choice, Opaqu
 from .absint import Raised, Unsupported, BOOL, SIGNS, _norm
 
 FORCED = frozenset(['len', 'range', 'isinstance', 'getattr', 'str', 'repr', 'float', 'int', 'bool', 'abs', 'dict',
-                    'list', 'tuple', 'type', 'sorted', 'max', 'min'])
+                    'list', 'tuple', 'type', 'sorted', 'max', 'min', 'format'])
+LAZY = frozenset(['str', 'repr', 'format', 'float', 'isinstance', 'Decimal', 'decimal.Decimal'])
 POS = frozenset([1])
 NONNEG = frozenset([0, 1])
 
@@ -133,6 +134,39 @@ def call_ext(I, st, f, args, kw, frame, node):
         return str_method(I, st, f.recv, name[4:], args, kw, frame, node)
     if name.startswith('tuple.'):
         return [(st, _opaque_result(st, name, args, kw, frame, node, f.recv))]
+    if name in LAZY and any(isinstance(a, Choice) for a in args):
+        # pure conversions distribute over lazily decided values without forking the path
+        from .exprs import _flat_alts, _conj
+        combos = [({}, [])]
+        for a in args:
+            nxt = []
+            for (c1, vs) in combos:
+                for (c2, x) in _flat_alts(a):
+                    c = _conj(c1, c2)
+                    if c is None:
+                        continue
+                    if any(st.dom.get(k) is not None and not (st.dom[k] & al) for k, al in c.items()):
+                        continue
+                    nxt.append((c, vs + [x]))
+            combos = nxt
+        alts = []
+        ok = bool(combos) and len(combos) <= 16
+        if ok:
+            for (c, vs) in combos:
+                ntrace = len(st.trace)
+                ndom = len(st.dom)
+                r = _call_builtin(I, st, f, name, vs, kw, frame, node, where)
+                if len(r) != 1 or isinstance(r[0][1], Raised) or r[0][0] is not st or len(st.dom) != ndom:
+                    ok = False
+                    break
+                del st.trace[ntrace:]
+                alts.append((c, r[0][1]))
+        if ok:
+            from .loops import _merge_alts
+            alts = _merge_alts(alts)
+            if len(alts) == 1 and not alts[0][0]:
+                return [(st, alts[0][1])]
+            return [(st, Choice(alts))]
     if name not in FORCED and not name.startswith('math.') and not name.startswith('copy.'):
         return _call_builtin(I, st, f, name, list(args), kw, frame, node, where)
     # ---- forced arguments for the builtins below
@@ -205,6 +239,11 @@ def _call_builtin(I, st, f, name, args, kw, frame, node, where):
         if v is NONE:
             return [(st, Str('None'))]
         return [(st, Cat([('fmt', v, '', 'str')]))]
+    if name == 'format' and args:
+        spec = args[1].s if len(args) > 1 and isinstance(args[1], Str) else ''
+        return [(st, Cat([('fmt', args[0], spec, 'format')]))]
+    if name in ('Decimal', 'decimal.Decimal') and args:
+        return [(st, Opaque('Decimal(%s)' % _k(args[0]), deps_of(args[0])))]
     if name == 'repr':
         return [(st, Cat([('fmt', args[0], '', 'repr')]))]
     if name == 'float':
@@ -545,6 +584,12 @@ def format_string(fmt, args, kw):
             v = kw.get(base, Opaque('missing-format-arg:%s' % base))
         if field != base:
             v = Opaque('%s of %s' % (field, _k(v)), deps_of(v))
+        if isinstance(v, Cat) and not spec and conv in (None, '', 's'):
+            parts.extend(v.parts)       # formatting a string inserts it unchanged
+            continue
+        if isinstance(v, Str) and not spec and conv in (None, '', 's'):
+            parts.append(v.s)
+            continue
         parts.append(('fmt', v, spec or '', conv or ''))
     r = Cat(parts)
     if not r.parts:
